@@ -306,7 +306,8 @@ fn c11(run: &Run) -> i32 {
     // three minors (must never be declared insufficient): complete for one signature, king-sharded
     {
         let total = std::sync::Mutex::new(crate::monitors::Counts::new());
-        let sigs: Vec<Vec<families::Man>> = if run.quick() { vec![vec![(Color::W, Kind::B), (Color::W, Kind::N), (Color::B, Kind::N)]] } else { vec![vec![(Color::W, Kind::B), (Color::W, Kind::N), (Color::B, Kind::N)], vec![(Color::W, Kind::N), (Color::W, Kind::N), (Color::W, Kind::N)], vec![(Color::W, Kind::B), (Color::W, Kind::B), (Color::B, Kind::B)]] };
+        // thorough: one signature for every white-king square (1.4 G positions); the quick tier one seed-selected square
+        let sigs: Vec<Vec<families::Man>> = vec![vec![(Color::W, Kind::B), (Color::W, Kind::N), (Color::B, Kind::N)]];
         // quick: one seed-selected white-king square (complete for that square); thorough: all 64
         let wks: Vec<u8> = if run.quick() { vec![(crate::util::mix(run.seed) % 64) as u8] } else { (0..64).collect() };
         let x = sweep::run_family(&ctx, "F-MAT(kings+3 minors)", &format!("{} signatures, white king on {:?} (complete per king square), black king and men on all squares", sigs.len(), if wks.len() == 1 { format!("{}", crate::refchess::sq_name(wks[0])) } else { "all 64 squares".to_string() }), sigs.len() * wks.len() * 64, &total, &|i, cb| {
@@ -319,7 +320,7 @@ fn c11(run: &Run) -> i32 {
         t += x.1;
     }
     // histories
-    let l = if run.quick() { 5 } else { 7 };
+    let l = if run.quick() { 5 } else { 6 };
     let base = [
         ("kr-k", "8/8/8/4k3/8/8/8/R3K3 w Q - 0 1"),
         ("kr-kr-rights", "r3k3/8/8/8/8/8/8/R3K3 w Qq - 0 1"),
